@@ -36,7 +36,7 @@ fn spec_of(c: &Combo) -> (ArchiveSpec, usize) {
     (ArchiveSpec::plain(entries), k)
 }
 
-const BUFS: &[&[usize]] = &[&[65536], &[1], &[0, 5], &[16], &[4, 2, 64], &[17]];
+const BUFS: &[&[usize]] = &[&[65536], &[1], &[0, 5], &[16], &[4, 2, 64], &[17], &[7, 4096], &[3, 200, 1], &[15, 129], &[1, 31, 4096], &[5, 128, 500]];
 
 fn read_bufs<R: Read>(r: &mut R, bufs: &[usize]) -> Result<Vec<u8>, String> {
     super::common::read_with_bufs(r, bufs, 1 << 26)
@@ -263,7 +263,7 @@ pub fn run(ctx: &mut Ctx) {
         &|k| {
             let (si, bit) = idx[k as usize];
             let s = &seeds[si];
-            Tamper { ae2: s.0, strength: s.1, method: s.2, len: s.3, bit, bufsel: (k % 6) as u8 }
+            Tamper { ae2: s.0, strength: s.1, method: s.2, len: s.3, bit, bufsel: (k % 11) as u8 }
         },
         &|t: &Tamper, info: &mut Info| {
             info.nontrivial = true;
